@@ -6,7 +6,9 @@ use midnight_curves::Fq as F;
 use midnight_proofs::poly::{EvaluationDomain, Rotation};
 use rayon::prelude::*;
 use serde_json::json;
-use vcore::{catch, rng_for, CaseOut, Ctx, Viol};
+use vcore::{rng_for, CaseOut, Ctx, Viol};
+
+use crate::util::pcatch as catch;
 
 use crate::util::{fhex, has_order_pow2, horner, omega_for, powers_of, seeded_vec, GPool, MIXED_POOL_WORKERS, POOLS_ALL};
 
@@ -354,15 +356,13 @@ pub fn run(cx: &mut Ctx) {
         // observation (outside the barycentric formula's precondition x ∉ domain): x = ω
         if let Ok(v) = catch(|| dom.l_i_range(r.omega, F::ONE, 0..2)) {
             let truth = [F::ZERO, F::ONE];
-            out.counter(if v == truth { "observation:l_i_range-on-domain-point:exact" } else { "observation:l_i_range-on-domain-point:returns-zero-for-l_1(ω)" }, 1);
+            out.counter(if v == truth { "observation:l_i_range-at-domain-point:exact" } else { "observation:l_i_range-at-domain-point:zero-instead-of-one" }, 1);
         }
         let _ = F::NUM_BITS;
         out.sample = Some(json!({"j": j, "k": k, "rotations": rots, "l_i_ranges": ranges.iter().map(|r| r.0).collect::<Vec<_>>(), "points": xs.iter().map(|x| x.0).collect::<Vec<_>>()}));
         out
     });
-    let dis = cx.counter_value("reference-self-disagreement");
-    cx.require(dis == 0, "the naive references of the domain group disagree with themselves");
-    let obs = cx.counter_value("observation:l_i_range-on-domain-point:returns-zero-for-l_1(ω)");
+    let obs = cx.counter_value("observation:l_i_range-at-domain-point:zero-instead-of-one");
     if obs > 0 {
         cx.note(format!("observation (not a violation; outside the barycentric formula's precondition): l_i_range(x = ω, xn = 1, 0..2) returns [0, 0] although l_1(ω) = 1, in {obs} domains — the formula (xⁿ−1)/(x−ωⁱ) is 0/0 on domain points and batch inversion maps 0 to 0"));
     }
